@@ -184,8 +184,18 @@ func init() {
 	register("C10", func(env *Env) error {
 		wrapCase = func(t string) string { return "(KScript " + t + ")" }
 		defer func() { wrapCase = nil }()
-		env.Header = hsHeader + "Hs.Builder Corr.Builder Corr.C10."
+		env.Header = hsHeader + "Hs.Builder Corr.Builder Hs.Pipelined Corr.PipeChecks Corr.C10."
 		if runBuilderCases(env, true) {
+			return nil
+		}
+		var rpc pipelinedCase
+		if ok, _ := env.ReplayDesc(&rpc); ok && rpc.Pipelined {
+			for _, sc := range pipeScenarios {
+				if sc.name == rpc.Name {
+					c := runPipelined(sc)
+					env.Add(c.coqAs("KPipe"), c)
+				}
+			}
 			return nil
 		}
 		var rw wsListenerCase
@@ -199,9 +209,19 @@ func init() {
 		}
 		if env.Replay == "" {
 			defer func() {
-				env.Header = hsHeader + "Hs.Builder Corr.Builder Corr.C10."
+				env.Header = hsHeader + "Hs.Builder Corr.Builder Hs.Pipelined Corr.PipeChecks Corr.C10."
 				runBuilderCases(env, false)
 				_ = addWsListenerCases(env)
+				// credentials written in clear behind the selection of TLS
+				for _, sc := range pipeScenarios {
+					if sc.conf != "tls-only" && sc.conf != "tls-first" && sc.conf != "none-or-tls" {
+						continue
+					}
+					c := runPipelined(sc)
+					env.Add(c.coqAs("KPipe"), c)
+					env.Count("pipelined:" + sc.name)
+					env.NonTrivial("pipelined-" + sc.name)
+				}
 			}()
 		}
 		o := enumOpts{confs: confsByName("tls-only", "tls-twice", "tls-only-no-config", "tls-only-gzip-only", "tls-first", "tls-handshake-fails"), oracles: serverOracles[:env.Pick(2, 3)], alphabet: serverAlphabet, depth: env.Pick(3, 4)}
@@ -400,12 +420,14 @@ type pipelinedCase struct {
 	Clear     []int  `json:"cleartext_identities"` // identities whose credentials went out only in clear before an upgrade that was completed
 }
 
-func (c *pipelinedCase) coq() string {
+func (c *pipelinedCase) coq() string { return c.coqAs("KPipelined") }
+
+func (c *pipelinedCase) coqAs(ctor string) string {
 	glued := make([]string, len(c.Case.Script))
 	for i, x := range c.Case.Script {
 		glued[i] = coqfmt.Bool(x.Glued)
 	}
-	return coqfmt.App("KPipelined", c.Case.Coq(), coqfmt.List(glued), coqfmt.Nats(c.Clear))
+	return coqfmt.App(ctor, c.Case.Coq(), coqfmt.List(glued), coqfmt.Nats(c.Clear))
 }
 
 type pipeScenario struct {
